@@ -287,6 +287,10 @@ def run(ctx):
         ctx.obligations.extend(obs)
         total += npairs
     ctx.floors.append(("(cell resolution, target) pairs analysed", total, 800))
+    # ---- C10.6: the descendants are taken from a list made for this call --------------------------------------------------
+    from . import purity
+    purity.fresh_result(ctx, "C10.6", "a5.core.serialization.cell_to_children", "the list of descendants that uncompact copies from")
+    purity.fresh_result(ctx, "C10.6", "a5.core.compact.uncompact", "the expanded list")
     ctx.analysed.update({"pairs": total, "shape": {"accumulator": sh.acc, "side_lists": sh.side, "result": sh.result, "offset": sh.offset},
                          "functions": [Q, "a5.core.cell_info.get_num_children", "a5.core.serialization.cell_to_children",
                                        "a5.core.serialization.get_resolution"]})
